@@ -23,11 +23,14 @@ LEVEL_TEXT = ("Partial. Unbounded proof: for every slot list (entry present at a
               "chunks of a package is walked in order and yields exactly the types; and for a whole file - table header, "
               "package count, main string pool, one package with its header, type and key string pools (any strings, either "
               "encoding) and any such chunks - parse_table returns that package with exactly the encoded types and entries "
-              "(coq/Axml/ArscTypeChunk.v, ArscTableProofs.v). The walk is also proved to end on every input (C35). Not "
-              "proved: tables with several packages, 16-bit and sparse offset arrays inside the whole-chunk theorem (they have "
-              "their own array theorems), unknown chunks in between; and the listings (locales, types, key-to-id, resolved "
-              "values) - all of these are modelled where they are part of the walk and compared with the code and with the "
-              "generated table description on every run; reference resolution is C29, locale qualifiers are C30.")
+              "(coq/Axml/ArscTypeChunk.v, ArscTableProofs.v); the whole-chunk theorem also holds for type chunks with 16-bit "
+              "offsets and for sparse type chunks (ArscTypeChunkEnc.v), and the whole-file theorem for tables with ANY number "
+              "of packages, each with any sequence of type specs and type chunks in any of the three encodings, packages of "
+              "one name merged as ARSCParser keeps them (ArscTablesMulti.v, tables_exact). The walk is also proved to end on "
+              "every input (C35). Not proved: unknown chunks in between (library, overlayable: modelled as skipped), and the "
+              "listings built on the parsed table (locales, types, key-to-id, resolved values) - these are modelled where "
+              "they are part of the walk and compared with the code and with the generated table description on every "
+              "run; reference resolution is C29, locale qualifiers are C30.")
 LEVEL_NOTE = ("Trusted: Coq kernel; coq/Axml/ArscTypeModel.v as a rendering of the type-chunk branch of ARSCParser.__init__ "
               "(the offset array is read at chunk start + header size, where ARSCResTableConfig leaves the stream on "
               "well-formed files) and of ARSCResTableEntry/ARSCComplex/ARSCResStringPoolRef; the harness tools/props/c28.py "
